@@ -72,6 +72,8 @@ def check_pair(name, on, off):
         # label goes, and white space at the very end of a procedure is stripped by the bank: empty lines do not count
         a = [ln for ln in strip_labels(on) if ln.strip()]
         b = [ln for ln in strip_labels(off) if ln.strip()]
+        if a and b:
+            a[-1], b[-1] = a[-1].rstrip(), b[-1].rstrip()      # the bank strips the end of the last procedure
         if a != b:
             d = next(((x, y) for x, y in zip(a, b) if x != y), (len(a), len(b)))
             return {"first_difference": d}
